@@ -493,4 +493,279 @@ Proof.
     congruence.
 Qed.
 
+(** * ownership of the received buffers (currentFrameDone discipline) *)
+(* the callback the stream still owes for its current frame *)
+Definition held (s : rstream) : list Z :=
+  if curIsLast s && (match cur s with [] => true | _ => false end) then [] else optl (curDone s).
+
+Record OwnInv (s : rstream) (ids : list Z) : Prop := {
+  o_perm : Permutation (fired (sorter s) ++ live (queue (sorter s)) ++ held s) ids;
+  o_nil : cur s = [] -> curIsLast s = false -> curDone s = None
+}.
+
+Lemma OwnInv_fields s s' ids : OwnInv s ids -> sorter s' = sorter s -> cur s' = cur s -> curDone s' = curDone s ->
+  curIsLast s' = curIsLast s -> OwnInv s' ids.
+Proof. intros [A B] E1 E2 E3 E4. constructor; unfold held; rewrite ?E1, ?E2, ?E3, ?E4; auto. Qed.
+
+Lemma inc_own s : sorter (isNewlyCompleted s) = sorter s /\ cur (isNewlyCompleted s) = cur s /\
+  curDone (isNewlyCompleted s) = curDone s /\ curIsLast (isNewlyCompleted s) = curIsLast s.
+Proof. destruct (inc_cases s) as [-> | ->]; simpl; auto. Qed.
+
+Lemma OwnInv_completed s ids : OwnInv s ids -> OwnInv (isNewlyCompleted s) ids.
+Proof. intros O. destruct (inc_own s) as (A&B&C&D). eapply OwnInv_fields; eauto. Qed.
+
+Lemma dequeue_own s s1 b ids : Inv S (sorter s) -> OwnInv s ids ->
+  curIsLast s && (match cur s with [] => true | _ => false end) = false ->
+  dequeue s = (s1, b) ->
+  OwnInv s1 ids /\ Inv S (sorter s1) /\ (cur s1 = [] -> curDone s1 = None).
+Proof.
+  intros I [OP ON] Hne H. unfold dequeue in H.
+  pose proof (Inv_fire_done S _ (curDone s) I) as I0.
+  destruct (Pop (fire_done (sorter s) (curDone s))) as [[q1 [[off d] cb]] bb] eqn:EP.
+  destruct (Pop_preserves S _ _ _ _ _ _ I0 EP) as (I1&_&_&_&_&_&_&Hf&_).
+  assert (Hpop : Permutation (live (queue (sorter s))) (optl cb ++ live (queue q1)) /\ (d = [] -> cb = None)).
+  { unfold Pop in EP. simpl in EP. destruct (qget (queue (sorter s)) (readPos (sorter s))) as [en|] eqn:E.
+    - inversion EP; subst; simpl. split; [apply live_qdel; auto|].
+      intros Hd. exfalso. apply qget_In in E. destruct (i_ent _ _ I _ _ E) as (_&Hl&_).
+      unfold elen in Hl. rewrite Hd in Hl. rewrite len_nil in Hl. lia.
+    - inversion EP; subst; simpl. split; auto. }
+  destruct Hpop as (Hperm&Hnone). inversion H; subst; clear H. simpl in Hf.
+  assert (Hheld : held (set_frame s q1 d cb 0 ((finalOffset s <=? off + len d) && negb (cancelledRemotely s))) = optl cb).
+  { unfold held. simpl. destruct d; [rewrite (Hnone eq_refl); rewrite andb_true_r;
+      destruct ((finalOffset s <=? off + len []) && negb (cancelledRemotely s)); reflexivity|].
+    rewrite andb_false_r. reflexivity. }
+  split; [|split; [exact I1|simpl; auto]].
+  constructor; [|simpl; intros Hd _; auto].
+  rewrite Hheld. simpl. rewrite Hf. simpl. rewrite fire_optl.
+  unfold held in OP. rewrite Hne in OP. rewrite <- OP. rewrite Hperm.
+  rewrite <- !app_assoc. apply Permutation_app_head.
+  rewrite (Permutation_app_comm (optl (curDone s))). rewrite <- !app_assoc.
+  apply Permutation_app_swap_app.
+Qed.
+
+Lemma eof_own s ids : OwnInv s ids -> curIsLast s = true -> (cur s = [] -> curDone s = None) ->
+  OwnInv (set_errorRead (set_frame s (fire_done (sorter s) (curDone s)) [] (curDone s) (rpif s) (curIsLast s))) ids.
+Proof.
+  intros [OP ON] Hl Hnil. constructor; [|simpl; congruence].
+  unfold held in *. simpl. rewrite Hl in *. simpl. rewrite fire_optl, app_nil_r.
+  destruct (cur s) eqn:Ec.
+  - simpl in OP. rewrite (Hnil eq_refl). simpl. rewrite !app_nil_r in *. exact OP.
+  - simpl in OP. rewrite <- OP. rewrite <- app_assoc. apply Permutation_app_head. apply Permutation_app_comm.
+Qed.
+
+Lemma readLoop_own : forall fuel s n acc s' d e bug ids,
+  Inv S (sorter s) -> OwnInv s ids ->
+  curIsLast s && (match cur s with [] => true | _ => false end) = false ->
+  readLoop fuel s n acc = (s', d, e, bug) -> OwnInv s' ids.
+Proof.
+  induction fuel as [|fuel IH]; intros s n acc s' d e bug ids I O Hne H; simpl in H; [inversion H; subst; auto|].
+  destruct (n <=? len acc).
+  { destruct (remoteEffective s); inversion H; subst; auto. eapply OwnInv_fields; eauto. }
+  destruct (if (match cur s with [] => true | _ => false end) || (len (cur s) <=? rpif s) then dequeue s else (s, false)) as [s1 b1] eqn:Ed.
+  assert (D : OwnInv s1 ids /\ Inv S (sorter s1) /\ (cur s1 = [] -> curDone s1 = None) /\ (cur s1 = [] -> rpif s1 = 0)).
+  { destruct ((match cur s with [] => true | _ => false end) || (len (cur s) <=? rpif s)) eqn:Edq.
+    - destruct (dequeue_own _ _ _ _ I O Hne Ed) as (A&B&C). split; auto. split; auto. split; auto.
+      intros _. unfold dequeue in Ed. destruct (Pop _) as [[q1 [[off dd] cb]] bb]. inversion Ed; subst. reflexivity.
+    - inversion Ed; subst. apply orb_false_elim in Edq as [E1 _]. apply isnil_false in E1.
+      split; auto. split; auto. split; intros Hc; congruence. }
+  destruct D as (O1&I1&Hn1&Hr1).
+  destruct b1; [inversion H; subst; auto|].
+  destruct ((match cur s1 with [] => true | _ => false end) && (0 <? len acc)); [inversion H; subst; auto|].
+  destruct (shutdown s1); [inversion H; subst; auto|].
+  destruct (cancelledLocally s1 || remoteEffective s1); [inversion H; subst; eapply OwnInv_fields; eauto|].
+  destruct (negb (match cur s1 with [] => false | _ => true end || curIsLast s1)) eqn:ED; [inversion H; subst; auto|].
+  apply negb_false_iff in ED.
+  match type of H with (if ?c then _ else _) = _ => destruct c eqn:Eeof end.
+  - inversion H; subst. apply andb_prop in Eeof as [_ El]. simpl in El.
+    apply (eof_own (set_read s1 _ _) ids); auto. eapply OwnInv_fields; eauto.
+  - apply (IH _ _ _ _ _ _ _ ids) in H; auto.
+    + eapply OwnInv_fields; eauto.
+    + simpl. (* the loop only continues with a non-empty current frame, or not at the end *)
+      destruct (cur s1) eqn:Ec; [|apply andb_false_r].
+      simpl in ED. rewrite ED. simpl in Eeof. rewrite ED in Eeof. rewrite andb_true_r in Eeof.
+      exfalso. unfold dskip, dtake in Eeof. rewrite ?skipn_nil, ?firstn_nil, ?len_nil in Eeof.
+      rewrite (Hr1 eq_refl) in Eeof. simpl in Eeof. discriminate.
+Qed.
+
+Lemma Read_own s n s' d e bug ids : Inv S (sorter s) -> OwnInv s ids -> Read s n = (s', d, e, bug) -> OwnInv s' ids.
+Proof.
+  intros I O H. unfold Read in H. destruct (readImpl s n) as [[[s1 d1] e1] b1] eqn:ER. inversion H; subst.
+  apply OwnInv_completed. unfold readImpl in ER.
+  destruct (curIsLast s && (match cur s with [] => true | _ => false end)) eqn:E1;
+    [inversion ER; subst; eapply OwnInv_fields; eauto|].
+  destruct (cancelledLocally s || remoteEffective s); [inversion ER; subst; eapply OwnInv_fields; eauto|].
+  destruct (shutdown s); [inversion ER; subst; auto|].
+  eapply readLoop_own; eauto.
+Qed.
+
+Lemma Peek_own s n s' d e bug ids : Inv S (sorter s) -> OwnInv s ids -> PeekS s n = (s', d, e, bug) -> OwnInv s' ids.
+Proof.
+  intros I O H. unfold PeekS in H. destruct (n <=? 0); [inversion H; subst; auto|].
+  rewrite peekImpl_unfold in H.
+  destruct (curIsLast s && (match cur s with [] => true | _ => false end)) eqn:E1; [inversion H; subst; auto|].
+  destruct (cancelledLocally s || remoteEffective s); [inversion H; subst; auto|].
+  destruct (shutdown s); [inversion H; subst; auto|].
+  destruct (if (match cur s with [] => true | _ => false end) || (len (cur s) <=? rpif s) then dequeue s else (s, false)) as [s1 b1] eqn:Ed.
+  assert (O1 : OwnInv s1 ids).
+  { destruct (_ || _); [eapply dequeue_own; eauto|inversion Ed; subst; auto]. }
+  destruct b1; [inversion H; subst; auto|].
+  assert (Hst : s' = s1).
+  { revert H. unfold peekBody. repeat match goal with
+      | |- context [if ?c then _ else _] => destruct c
+      | |- context [match ?c with Some _ => _ | None => _ end] => destruct c
+      end; intros H; inversion H; auto. }
+  subst. auto.
+Qed.
+
+Lemma frame_own s off n fin cb s' ids : RSInv S s -> OwnInv s ids -> 0 <= off -> 0 <= n ->
+  handleStreamFrame s (slice S off n) off fin cb = (s', FNil) ->
+  OwnInv s' (if cancelledLocally s then ids else ids ++ optl cb).
+Proof.
+  intros R [OP ON] H0 Hn H. unfold handleStreamFrame in H. rewrite len_slice in H by lia.
+  destruct (fcUpdate s (off + n) fin) as [s1 e1] eqn:Ef.
+  destruct e1; try (inversion H; discriminate).
+  destruct (fcUpdate_err_same _ _ _ _ _ Ef) as (A1&A2&A3&A4&A5&A6&A7&A8&A9&A10&A11).
+  destruct (fcUpdate_ok _ _ _ _ Ef) as (_&_&_&_&_&_&_&_&_&_&_&B12&_&B14&_&_).
+  set (s2 := if fin then set_final s1 (off + n) else s1) in *.
+  assert (B : sorter s2 = sorter s /\ cancelledLocally s2 = cancelledLocally s /\ cur s2 = cur s /\ curDone s2 = curDone s /\ curIsLast s2 = curIsLast s).
+  { unfold s2. destruct fin; simpl; rewrite ?A1, ?A7, ?A3, ?A10, ?A11; auto. }
+  destruct B as (B1&B2&B3&B4&B5). rewrite B2 in H.
+  destruct (cancelledLocally s) eqn:Ecl.
+  - inversion H; subst. apply OwnInv_completed. eapply OwnInv_fields; eauto. constructor; auto.
+  - destruct (Push (sorter s2) (slice S off n) off cb) as [q rr] eqn:EP. rewrite B1 in EP.
+    pose proof (v_win _ _ R) as VW.
+    assert (Hmax : off + n < MaxBC).
+    { destruct (Z.le_gt_cases (off + n) (fc_highest s)); [lia|]. specialize (B14 ltac:(lia)). lia. }
+    destruct (Push_post S _ _ _ _ _ _ (v_inv _ _ R) H0 Hn Hmax EP) as (_&Hok).
+    destruct rr; simpl in H; try (inversion H; discriminate).
+    destruct (Hok eq_refl) as (_&_&_&_&Hperm&_).
+    assert (E' : s' = isNewlyCompleted (set_sorter s2 q)) by (inversion H; reflexivity).
+    subst s'. apply OwnInv_completed. constructor; simpl; rewrite ?B3, ?B4, ?B5; auto.
+    unfold held in *. simpl. rewrite B3, B4, B5.
+    rewrite app_assoc, Hperm. rewrite <- OP. rewrite <- !app_assoc.
+    rewrite Permutation_app_comm. rewrite <- !app_assoc. reflexivity.
+Qed.
+
+Lemma reset_own s final reliable code s' e ids : OwnInv s ids ->
+  handleResetStreamFrame s final reliable code = (s', e) -> OwnInv s' ids.
+Proof.
+  intros O H. unfold handleResetStreamFrame in H.
+  destruct (shutdown s); [inversion H; subst; apply OwnInv_completed; auto|].
+  destruct (fcUpdate s final true) as [s1 e1] eqn:Ef.
+  destruct (fcUpdate_err_same _ _ _ _ _ Ef) as (A1&A2&A3&A4&A5&A6&A7&A8&A9&A10&A11).
+  match type of H with (let '(_, _) := ?X in _) = _ => destruct X as [s2 e2] eqn:E2 end.
+  inversion H; subst. apply OwnInv_completed.
+  assert (Hs2 : sorter s2 = sorter s1 /\ cur s2 = cur s1 /\ curDone s2 = curDone s1 /\ curIsLast s2 = curIsLast s1).
+  { revert E2. destruct e1; repeat match goal with |- context [if ?c then _ else _] => destruct c end;
+      intros E2; inversion E2; subst; simpl; auto. }
+  destruct Hs2 as (C1&C2&C3&C4). eapply OwnInv_fields; eauto; congruence.
+Qed.
+
+Lemma cancel_own s code ids : OwnInv s ids -> OwnInv (CancelRead s code) ids.
+Proof.
+  intros O. unfold CancelRead. apply OwnInv_completed.
+  destruct (cancelledLocally s); auto. destruct (shutdown s); auto.
+  destruct (errorRead s || cancelledRemotely s); eapply OwnInv_fields; eauto.
+Qed.
+
+(* callback ids of the frames of a history *)
+Definition rop_cbs (ops : list rop) : list Z :=
+  flat_map (fun o => match o with ROFrame _ _ _ cb => optl cb | _ => [] end) ops.
+
+Lemma OwnInv_init w : OwnInv (rs_init w) [].
+Proof. constructor; simpl; auto. Qed.
+
+Lemma rstep_own r o r' : RRInv S r -> OwnInv (rr_st r) (rr_acc r) -> rvalid o -> rstep S r o = Some r' ->
+  OwnInv (rr_st r') (rr_acc r') /\
+  (exists l, rr_acc r' = rr_acc r ++ l /\ (l = [] \/ l = rop_cbs [o])).
+Proof.
+  intros [R _ _] O Hv Hs. destruct o as [off n fin cb|final reliable code|n|n|code|]; simpl in Hs.
+  - destruct Hv as (V1&V2).
+    destruct (handleStreamFrame (rr_st r) (slice S off n) off fin cb) as [s' e] eqn:EH.
+    destruct e; try discriminate. inversion Hs; subst; simpl.
+    pose proof (frame_own _ _ _ _ _ _ _ R O V1 V2 EH) as O'.
+    split; [exact O'|].
+    destruct (cancelledLocally (rr_st r)).
+    + exists []. rewrite app_nil_r. auto.
+    + exists (optl cb). split; [destruct cb; reflexivity|]. right. simpl. rewrite app_nil_r. reflexivity.
+  - destruct (handleResetStreamFrame (rr_st r) final reliable code) as [s' e] eqn:EH.
+    destruct e; try discriminate. inversion Hs; subst; simpl.
+    split; [eapply reset_own; eauto|]. exists []. rewrite app_nil_r. auto.
+  - destruct (Read (rr_st r) n) as [[[s' d] e] bug] eqn:ER. destruct bug; [discriminate|].
+    inversion Hs; subst; simpl. split; [eapply Read_own; eauto; apply (v_inv _ _ R)|]. exists []. rewrite app_nil_r. auto.
+  - destruct (PeekS (rr_st r) n) as [[[s' d] e] bug] eqn:EP. destruct bug; [discriminate|].
+    inversion Hs; subst; simpl. split; [eapply Peek_own; eauto; apply (v_inv _ _ R)|]. exists []. rewrite app_nil_r. auto.
+  - inversion Hs; subst; simpl. split; [apply cancel_own; auto|]. exists []. rewrite app_nil_r. auto.
+  - inversion Hs; subst; simpl. split; [eapply OwnInv_fields; eauto|]. exists []. rewrite app_nil_r. auto.
+Qed.
+
+Lemma NoDup_drop_mid {T} (a b c : list T) : NoDup (a ++ b ++ c) -> NoDup (a ++ c).
+Proof.
+  intros H. induction b as [|x b IH]; auto. apply IH.
+  simpl in H. apply NoDup_remove_1 in H. exact H.
+Qed.
+
+Lemma rsrun_own ops : forall r r', RRInv S r -> OwnInv (rr_st r) (rr_acc r) -> Forall rvalid ops ->
+  NoDup (rr_acc r ++ rop_cbs ops) -> rsrun S r ops = Some r' ->
+  OwnInv (rr_st r') (rr_acc r') /\ NoDup (rr_acc r') /\ incl (rr_acc r') (rr_acc r ++ rop_cbs ops).
+Proof.
+  induction ops as [|o ops IH]; intros r r' R O Hv Hnd Hs; simpl in Hs.
+  - inversion Hs; subst. simpl in Hnd. rewrite app_nil_r in *. split; auto. split; auto. apply incl_refl.
+  - inversion Hv; subst. destruct (rstep S r o) as [r1|] eqn:E1; [|discriminate].
+    destruct (rstep_own _ _ _ R O H1 E1) as (O1&l&Hl&Hcase).
+    pose proof (rstep_RRInv S _ _ _ R H1 E1) as R1.
+    assert (Hcbs : rop_cbs (o :: ops) = rop_cbs [o] ++ rop_cbs ops).
+    { unfold rop_cbs. simpl. rewrite app_nil_r. reflexivity. }
+    rewrite Hcbs in Hnd.
+    assert (Hnd1 : NoDup (rr_acc r1 ++ rop_cbs ops)).
+    { rewrite Hl. destruct Hcase as [-> | ->].
+      - rewrite app_nil_r. eapply NoDup_drop_mid; eauto.
+      - rewrite <- app_assoc. exact Hnd. }
+    destruct (IH _ _ R1 O1 H2 Hnd1 Hs) as (A&B&C). split; auto. split; auto.
+    intros x Hx. apply C in Hx. rewrite Hl in Hx. rewrite Hcbs.
+    apply in_app_or in Hx. destruct Hx as [Hx|Hx].
+    + apply in_app_or in Hx. destruct Hx as [Hx|Hx]; [apply in_or_app; auto|].
+      destruct Hcase as [-> | ->]; [destruct Hx|]. apply in_or_app. right. apply in_or_app. auto.
+    + apply in_or_app. right. apply in_or_app. auto.
+Qed.
+
+(** Every frame handed to the sorter has its doneCb (PutBack) in exactly one place: fired,
+    attached to a queued entry, or owed for the current frame. So no buffer is released
+    twice, none is released while the queue or the current frame still refers to it, and
+    frames that arrive after CancelRead are never released (nor referenced). *)
+Theorem recv_buffers_once w ops r : 0 <= w < MaxBC -> Forall rvalid ops -> NoDup (rop_cbs ops) ->
+  rsrun S (rrun_init w) ops = Some r ->
+  Permutation (fired (sorter (rr_st r)) ++ live (queue (sorter (rr_st r))) ++ held (rr_st r)) (rr_acc r) /\
+  NoDup (fired (sorter (rr_st r)) ++ live (queue (sorter (rr_st r))) ++ held (rr_st r)) /\
+  incl (rr_acc r) (rop_cbs ops).
+Proof.
+  intros Hw Hv Hnd Hs.
+  destruct (rsrun_own ops _ _ (RRInv_init S w Hw) (OwnInv_init w) Hv Hnd Hs) as ([OP _]&B&C).
+  split; auto. split; auto. eapply Permutation_NoDup; [symmetry; exact OP|exact B].
+Qed.
+
+(** the RESET_STREAM_AT clauses over reachable states *)
+Theorem recv_reset_at_reach w ops r : 0 <= w < MaxBC -> Forall rvalid ops -> rsrun S (rrun_init w) ops = Some r ->
+  let s := rr_st r in
+  (* 1. frames are buffered whatever the reset state (unless reading was cancelled locally) *)
+  (forall off n fin cb s', 0 <= off -> 0 <= n -> cancelledLocally s = false ->
+     handleStreamFrame s (slice S off n) off fin cb = (s', FNil) ->
+     rpos s' = rpos s /\ crest s' = crest s /\
+     forall x, off <= x < off + n -> rpos s + crest s <= x -> cov (queue (sorter s')) x) /\
+  (* 2. the reliable size never exceeds the final size *)
+  (cancelledRemotely s = true -> fc_final s = true /\ 0 <= reliableSize s <= finalOffset s) /\
+  (* 3. reads after a reset *)
+  (forall n s' d e bug, 0 < n -> cancelledRemotely s = true -> cancelledLocally s = false -> shutdown s = false ->
+     Read s n = (s', d, e, bug) ->
+     (rpos s < reliableSize s -> available s -> 0 < len d /\ d = slice S (rpos s) (len d)) /\
+     (reliableSize s <= rpos s -> d = [] /\ (e = cancel_rerr s \/ e = EEOF)) /\
+     (forall c r0, e = ECancel c r0 -> reliableSize s' <= rpos s')).
+Proof.
+  intros Hw Hv Hs s. destruct (reach_both w ops r Hw Hv Hs) as (R&R2). fold s in R, R2.
+  split; [|split].
+  - intros off n fin cb s' H0 Hn Hcl H. eapply recv_frame_buffers; eauto.
+  - intros Hcr. split; [apply (w_fin _ R2); auto|apply (w_rel _ R2)].
+  - intros n s' d e bug Hn Hcr Hcl Hsh H. eapply recv_reset_at_delivers; eauto.
+Qed.
+
 End WithS.
